@@ -974,7 +974,7 @@ func skeleton(res map[string]interface{}) map[string]interface{} {
 		ok := ggql.WriteJSONValue(&sb, res, indent) == nil
 		var back interface{}
 		if ok {
-			ok = json.Unmarshal([]byte(sb.String()), &back) == nil && vh.JS(back) == vh.JS(ref)
+			ok = json.Unmarshal([]byte(sb.String()), &back) == nil && matchesRef(ref, back)
 		}
 		js[name] = ok
 	}
@@ -1002,8 +1002,48 @@ func normaliseForJSON(x interface{}) interface{} {
 		return string(v)
 	case time.Time:
 		return v.Format(time.RFC3339Nano)
+	case nil, bool, string, int, int16, int32, int64, float32, float64, json.Number: // (the Go kinds GraphQL values come in)
+		return x
 	}
-	return x
+	// a value of a Go type GraphQL has no type for (in the extensions of an application's error): how it is rendered
+	// is not prescribed, only that the whole is JSON
+	return map[string]interface{}{anyJSON: true}
+}
+
+const anyJSON = "$any JSON value$"
+
+// matchesRef: the decoded text has the structure of the reference; where the reference leaves the rendering open
+// anything goes.
+func matchesRef(ref, back interface{}) bool {
+	switch r := ref.(type) {
+	case map[string]interface{}:
+		if _, open := r[anyJSON]; open {
+			return true
+		}
+		b, ok := back.(map[string]interface{})
+		if !ok || len(b) != len(r) {
+			return false
+		}
+		for k, e := range r {
+			be, has := b[k]
+			if !has || !matchesRef(e, be) {
+				return false
+			}
+		}
+		return true
+	case []interface{}:
+		b, ok := back.([]interface{})
+		if !ok || len(b) != len(r) {
+			return false
+		}
+		for i := range r {
+			if !matchesRef(r[i], b[i]) {
+				return false
+			}
+		}
+		return true
+	}
+	return vh.JS(ref) == vh.JS(back)
 }
 
 // cmdEnvelope (C07): run cases in every layout and record response skeletons plus the lexemes
